@@ -15,6 +15,7 @@ CONSTANTS
   MaxOpens = 2
   MaxResp = 2
   MaxSC = 1
+  Label = FALSE
 INIT Init
 NEXT Next
 VIEW View
